@@ -1,16 +1,23 @@
 """C15 — Norton-Thevenin coupling reproduces the directly coupled system (DESIGN.md section 6/C15).
 
-Tie: numeric correspondence between the Lean model (lean/PyYetiVerif/Model/NT.lean, the polymorphic
-formulas executed at dense complex-Float matrices through Drivers/C15.lean) and
-  * frclim.ntfl on 3-d SAM/LAM arrays (stream `ntfl-arrays`: A, F, R, TAM; non-symmetric data, 1..6
-    interface DOF, so the (b x freq x b) layout is observable),
-  * frclim.calcAM with a recovery matrix (stream `calcAM-drm`: default SolveUnc(pre_eig) route on
-    symmetric free-free models, fs=FreqDirect and fs=SolveUnc on non-symmetric data),
-  * frclim.calcAM with a partition vector / cb.cbtf (stream `calcAM-pv`: scattered, unordered b-set,
-    non-zero K_bq that the code ignores, f = 0, empty q-set).
-Oracle (model-free): random free-free source/load pairs; every calcAM route and both boundary forms
-against plain numpy (T Z^-1 T' inverted), ntfl against the physically coupled system assembled and
-solved with numpy.linalg.solve, AM.Acc = I, f = 0 and f -> 0 against the rigid-body mass.
+Lean: Model/NT.lean (block formulas), Model/NTCbtf.lean (cb.cbtf in full: partition by bset, q-set solve, frc/a/d/v,
+`save`, f = 0; calcAM column by column), Model/NTPack.lean (ntfl complete: packaging, loop body, every field; exact
+Gaussian rationals), Props/C15, C15b (cbtf), C15c (ntfl), C15d (routes, low-frequency expansion), C15e (limit W -> 0).
+
+Tie (Drivers/C15.lean runs the same definitions at complex Float and at exact Gaussian rationals):
+  numeric  ntfl-arrays (A, F, R, TAM; two executable models), calcAM-drm (all routes), calcAM-pv (block formula and
+           column by column from cbtfCol), cbtf (frc, a, d, v; `a` as vector / column / matrix; save none / {} / warm
+           from another acceleration and another frequency vector; f = 0; empty q-set; unordered b-set)
+  exact    ntfl-exact (Gaussian dyadic inputs with SAM+LAM a generalised permutation of units x powers of two: every
+           floating-point operation of the real code is exact, outputs compared with the exact rational model, no
+           tolerance; the model's solver is verified exactly on every request), cbtf-exact (f = 0: frc, a, v for any dyadic
+           model, d for diagonal q-q blocks; calcAM(f = 0) = m[bset][:, bset]), layout, flippv, packa (shapes and the two
+           ValueErrors of cbtf), packas (np.atleast_2d(As), the size check and numpy's ValueError in ntfl)
+Oracle (model-free): random free-free source/load pairs; every calcAM route and both boundary forms against plain numpy,
+ntfl against the physically coupled system solved with numpy.linalg.solve, AM.Acc = I, f = 0 and f -> 0 against the
+rigid-body mass, AM(W) against M_rb + W^2 (regular) at every frequency; cb.cbtf against the Craig-Bampton equations in
+model order and warm-vs-cold `save`; ntfl reciprocity / change of boundary coordinates / units / frequency-by-frequency
+independence; the recovery-matrix route against the Schur complement of the full impedance for scattered b-sets.
 """
 import math
 import warnings
@@ -30,12 +37,13 @@ THEOREMS = [
         "am_rigid_limit forms_agree forms_agree_cbtf accImp_additive forms_agree_empty_qset "
         "pv_empty_qset_order_matters layout_injective layout_in_bounds "
         # Props/C15b (cb.cbtf in full), C15c (ntfl complete), C15d (routes, low-frequency expansion), C15e (limit)
-        "cbtf_eom cbtf_frc_blocks cbtf_force_eq_am_times_accel cbtf_force_zero_freq cbtf_zero_freq cbtf_outputs_def cbtf_accel_eq calcAM_pv_eq_cbtfAM calcAM_pv_zero_freq cbtf_save_transparent cbtf_save_not_keyed cbtfE_force_eq_am_times_accel cbtfE_vs_general flippv_partitions parallel_sum_comm nt_reciprocity nt_reciprocity_matrix nt_force_operator_symmetric ntfl_congruence ntfl_R_trace_invariant ntfl_scaling ntfl_R_not_invariant ntfl_pointwise slice3F_pack3F ntflColF_spec ntA_col packAs_vector packAs_matrix routes_agree_general routes_agree_solvers routes_difference routes_agree_beyond_cb routes_disagree_noncb dyn_stiffness_schur_expansion am_low_frequency_expansion lowfreq_regular_tendsto am_low_frequency_limit cb_transform_blocks cb_form_determinate cbtf_low_frequency_expansion cbtf_zero_freq_is_limit"
+        "cbtf_eom cbtf_frc_blocks cbtf_force_eq_am_times_accel cbtf_force_zero_freq cbtf_zero_freq cbtf_outputs_def cbtf_accel_eq calcAM_pv_eq_cbtfAM calcAM_pv_zero_freq cbtf_save_transparent cbtf_save_not_keyed cbtfE_force_eq_am_times_accel cbtfE_vs_general flippv_partitions parallel_sum_comm nt_reciprocity nt_reciprocity_matrix nt_force_operator_symmetric ntfl_congruence ntfl_R_trace_invariant ntfl_scaling ntfl_R_not_invariant ntfl_pointwise slice3F_pack3F ntflColF_spec ntA_col packAs_vector packAs_matrix routes_agree_general routes_agree_solvers routes_difference routes_agree_beyond_cb routes_disagree_noncb drm_zero_freq dyn_stiffness_schur_expansion am_low_frequency_expansion lowfreq_regular_tendsto am_low_frequency_limit cb_transform_blocks cb_form_determinate cbtf_low_frequency_expansion cbtf_zero_freq_is_limit"
     ).split()
 ]
 TRUSTED = [
     "correspondence harness harness/props/c15.py (numeric comparison, |impl-model| <= 1e-9*scale, inputs with a "
-    "condition estimate above 1e5 skipped and counted)",
+    "condition estimate above 1e5 skipped and counted; exact comparison of IEEE doubles with rationals through "
+    "fractions.Fraction)",
     "matrix inversion / linear solves (LAPACK in scipy.linalg.inv/solve, the complex eigen-solution inside "
     "ode.SolveUnc, Gauss-Jordan in the Lean Float instance) satisfy X*A = A*X = 1 up to rounding: the theorems take "
     "the inverse equations as hypotheses, the residuals are measured on every run",
@@ -43,23 +51,34 @@ TRUSTED = [
     "IEEE double rounding is outside the theorems (they are over any ring / any field)",
 ]
 RULE = (
-    "ntfl-arrays: random complex non-symmetric SAM/LAM/As with 1..6 boundary DOF and 1..5 frequencies; calcAM-drm: "
+    "ntfl-arrays: random complex non-symmetric SAM/LAM/As with 1..6 boundary DOF and 1..5 frequencies; ntfl-exact: Gaussian "
+    "dyadic SAM/As with SAM+LAM a (permuted) diagonal of units times powers of two, 1..5 boundary DOF; calcAM-drm: "
     "random free-free symmetric models (proportional, modal, non-proportional damping) through the default route and "
-    "non-symmetric matrices through fs=FreqDirect/SolveUnc, selection and dense recovery matrices; calcAM-pv: random "
-    "matrices with scattered unordered b-set, f=0 and empty q-set included. A case is one (model, frequency vector) "
-    "compared on every output entry; non-trivial = at least 2 boundary DOF (layout observable) or a damping-coupled "
-    "b-q partition; distinct by the generated arrays"
+    "non-symmetric matrices through fs=FreqDirect/SolveUnc, selection and dense recovery matrices; calcAM-pv and cbtf: random "
+    "matrices (symmetric and not, several unit systems, Craig-Bampton form or with a K_bq the code ignores) with scattered "
+    "unordered b-set, f=0, integer frequency vectors and empty q-set included; cbtf additionally: `a` as vector / one column / "
+    "b x freq matrix, save = None / {} / left by an earlier call with another acceleration and another frequency vector (same "
+    "or other length); cbtf-exact: dyadic models at f = 0. A case is one (model, frequency vector) compared on every output "
+    "entry; non-trivial = at least 2 boundary DOF (layout observable) or a damping-coupled b-q partition; distinct by the "
+    "generated arrays"
 )
 ASSUMPTIONS = [
     "comparisons only where the condition estimates of the dynamic stiffness, the boundary accelerance and SAM+LAM "
     "are below 1e5 (frequencies nearer to an undamped (anti-)resonance are skipped and counted)",
-    "partition-vector form: the model is in Craig-Bampton form (K_bq = 0), as frclim.calcAM documents",
+    "partition-vector form: the model is in Craig-Bampton form (K_bq = 0), as frclim.calcAM documents "
+    "(`routes_difference` says exactly what is lost otherwise, `routes_disagree_noncb` is a concrete instance)",
     "f -> 0 limit equals the rigid-body mass only for a statically determinate interface (as many boundary DOF as "
-    "rigid-body modes); f = 0 itself is compared exactly there",
+    "rigid-body modes; K and B annihilate the rigid-body modes, K_ii invertible); f = 0 itself is compared exactly there",
+    "cb.cbtf: `bset` without repetition and inside the model; the `save` dictionary is only passed between calls on the "
+    "same m, b, k, bset (the entry is not keyed by the model: `cbtf_save_not_keyed`)",
 ]
 PARTIAL = (
-    "the limit W -> 0 of the apparent mass of a flexible free-free model (analysis) is checked by the oracle only; "
-    "proved: the algebraic parts (rigid body: AM = M at every frequency; no b-q coupling: AM = D_bb)"
+    "calcAM at exactly f = 0 through the recovery-matrix route rests on the rigid-body branch inside ode.SolveUnc.fsolve "
+    "(property C02): `drm_zero_freq` proves AM = rigid-body mass FROM the accelerance T phi (phi' M phi)^-1 phi' T' that "
+    "branch returns, the branch itself is compared by the oracle only; the solvers (LAPACK solve/inv, SolveUnc.fsolve) enter "
+    "every theorem through their specification (hypotheses `SolvesQ`, `hsolve`, `IsUnit det`): verified exactly in the exact "
+    "streams, measured in the numeric ones; that the index functions the driver builds from a b-set list form an "
+    "`IsPartition` is checked by the tie, proved is the list-level statement `flippv_partitions`"
 )
 MANIFEST = {
     "level_text": "Proof (Lean 4, standard axioms only) over an arbitrary non-commutative ring and over Mathlib "
@@ -67,17 +86,37 @@ MANIFEST = {
     "solution of source reaction + load equation (`nt_algebra`, `nt_solves_coupled`), eliminating the interior DOF of "
     "source and load from the assembled block system gives exactly those interface accelerations and forces "
     "(`nt_equals_coupled`), the apparent mass of the assembled system is SAM + LAM (`tam_additive`), AM inverts the "
-    "accelerance obtained from unit boundary forces (`am_inverse`), the recovery-matrix and partition-vector forms "
-    "agree when T selects the b-set and the model is in Craig-Bampton form (`forms_agree`, `forms_agree_cbtf`; "
-    "`forms_agree_empty_qset` for an all-boundary model with the b-set in any order), a "
-    "rigid body has AM = M at every frequency (`am_rigid_limit`), and the (b x freq x b) layout is injective and in "
-    "bounds. The same polymorphic definitions are executed at complex Float matrices and compared with frclim.ntfl, "
-    "frclim.calcAM (all routes) and cb.cbtf on every run; a model-free oracle couples random free-free structures "
-    "directly with numpy.linalg.solve.",
-    "level_note": "Trusted: Lean kernel; propext, Classical.choice, Quot.sound; the Python harness; LAPACK/eigen "
-    "solvers as inverses (measured); rounding outside the theorems; W -> 0 limit checked numerically only.",
-    "technique": "Lean 4 proof (ring identities, Schur complements of Mathlib block matrices) + numeric differential "
-    "correspondence of the same definitions at Float + model-free direct-coupling oracle",
+    "accelerance obtained from unit boundary forces (`am_inverse`). cb.cbtf modelled in full over function matrices on "
+    "Fin n with an arbitrary partition (b-set in any order, anywhere): every returned array is the stated transfer "
+    "function of the Craig-Bampton equations in model order (`cbtf_outputs_def`, `cbtf_eom`), frc = AM a with AM the "
+    "Schur complement at every non-zero frequency and m_bb a at f = 0 (`cbtf_force_eq_am_times_accel`, "
+    "`cbtf_force_zero_freq`, `cbtf_zero_freq`), calcAM assembled column by column is that AM (`calcAM_pv_eq_cbtfAM`), a "
+    "warm `save` equals a cold call (`cbtf_save_transparent`; the entry is not keyed by the model: `cbtf_save_not_keyed`), "
+    "the empty-q-set branch agrees with the general one (`cbtfE_vs_general`), `bset ++ flippv` is a permutation of the DOF "
+    "(`flippv_partitions`). ntfl complete: loop body = the formulas for any solver meeting la.solve's specification "
+    "(`ntflColF_spec`), frequency-by-frequency independence (`ntfl_pointwise`), (b x freq x b) packing round trip "
+    "(`slice3F_pack3F`, `layout_injective`), packaging of As (`packAs_vector`, `packAs_matrix`), exchange of source and load "
+    "(`nt_reciprocity`: R' = 1 - R, A' = As - A, F' = F; `nt_force_operator_symmetric`), change of boundary coordinates "
+    "(`ntfl_congruence`; R itself is not invariant, its trace is), units (`ntfl_scaling`). Routes: the recovery-matrix route "
+    "with any solver is the Schur complement of the FULL impedance for a b-set anywhere in any order, no Craig-Bampton form "
+    "(`routes_agree_general`, `routes_agree_solvers`), the partition-vector route differs by exactly the K_bq/K_qb terms "
+    "(`routes_difference`, `routes_agree_beyond_cb`, counterexample `routes_disagree_noncb`; `forms_agree*` as before). "
+    "Low frequency: AM(s) = M_rb - s^2 (M_bi + chi M_ii) Z_ii(s)^-1 (M_ib + M_ii psi) as a rational-function identity "
+    "(`am_low_frequency_expansion`), hence AM -> M_rb as W -> 0 over any normed field (`am_low_frequency_limit`, Filter.Tendsto), "
+    "the Craig-Bampton model of such a structure has m_bb = M_rb and k_bb = k_bq = 0 (`cb_form_determinate`) and what cbtf "
+    "returns at f = 0 is the limit of what it returns for f -> 0 (`cbtf_zero_freq_is_limit`). The same definitions are "
+    "executed at complex Float and at exact Gaussian rationals and compared with frclim.ntfl, frclim.calcAM (all routes) and "
+    "cb.cbtf on every run (numeric streams with graded tolerances; exact streams with no tolerance); a model-free oracle "
+    "couples random free-free structures directly with numpy.linalg.solve and checks cbtf against the CB equations.",
+    "level_note": "Trusted: Lean kernel; propext, Classical.choice, Quot.sound; the Python harness; LAPACK / SolveUnc as "
+    "solvers (hypotheses of the theorems; verified exactly in the exact streams, measured in the numeric ones); rounding "
+    "outside the theorems; calcAM(f = 0) through SolveUnc's rigid-body branch and the driver's list -> index-function glue "
+    "are tied, not proved. Not in the property's statement and not modelled: frclim.sefl / stdfs / ctdfs (semi-empirical "
+    "force limits). Observation (outside the statement): with an empty q-set cb.cbtf returns a, d, v in b-set order, with a "
+    "non-empty q-set in model order (`cbtfE_vs_general`).",
+    "technique": "Lean 4 proof (ring identities, Schur complements of Mathlib block matrices, function matrices over Fin n, "
+    "Filter.Tendsto for the low-frequency limit) + numeric and exact differential correspondence of the same definitions + "
+    "model-free direct-coupling oracle",
 }
 
 TOL = 1e-9
@@ -703,7 +742,7 @@ def _corr_cbtf(ctx, drv, cb):
         if c["nq"]:
             cond = np.maximum(cond, _kappa_qq(c["M"], c["B"], c["K"], c["bset"], fz))
         inp = {"kind": "cbtf", "M": _enc(c["M"]), "B": _enc(c["B"]), "K": _enc(c["K"]), "bset": [int(i) for i in c["bset"]],
-               "freq": [float(x) for x in c["freq"]], "a": _enc(c["a_in"]), "save": c["save"]}
+               "freq": np.asarray(c["freq"]).tolist(), "a": _enc(c["a_in"]), "save": c["save"]}  # ints stay ints (dtype)
         ctx.case(("cbtf", c["M"].tobytes()[:64], tuple(int(i) for i in c["bset"])), nontrivial=True,
                  branch="cbtf:a=" + c["aform"])
         ctx.count("cbtf:save=" + c["save"])
@@ -1188,7 +1227,7 @@ def _cbtf_check(inp, cb):
     warm `save` (left by a call with another acceleration and another frequency vector) returns the same"""
     M, B, K = (_dec(inp[k]) for k in ("M", "B", "K"))
     bset = np.array(inp["bset"], dtype=int)
-    freq = np.array(inp["freq"], dtype=float)
+    freq = np.array(inp["freq"])  # an integer frequency vector stays one
     a_in = _dec(inp["a"])
     n_ = M.shape[0]
     r = len(bset)
